@@ -55,11 +55,13 @@ ASSUMPTIONS = [
     "the target interval is closed: a member exactly on target_min/target_max has not left it",
     "the step changes only after a failed correction (no growth after an accept), new step = sign(step)*clip(|policy(step)|, step_min, step_max) with the documented default policy step/2",
     "'gives up after the configured number of retries' = max_retries_per_step+1 consecutive failed corrections at one member end the run",
-    "a shrink policy that returns a larger step is the caller's choice; for such policies only the clamp to step_max is asserted",
+    "a shrink policy that returns a larger step is the caller's choice; for such policies only new step = clamp(policy(step)) is asserted",
+    "info['iterations'] counts corrector calls (one predict-correct iteration each); info['final_step'] (if reported) obeys the same magnitude bounds and sign",
     "(B) closure bound = 100 * ||M|| * (corrector tol + 1e-11 integration error) with M the oracle's own monodromy matrix",
 ]
 
 EPS = 2.0 ** -52
+NT_CAP = 150_000
 _FAIL = "rx"
 
 
@@ -374,6 +376,8 @@ def analyse(cfg, log, resp, err):
     if famr != accepted:
         fails.append(("family-content", "family is not [seed] + accepted corrector outputs in order: %d members reported, %d accepted" % (len(famr), len(accepted))))
     for i, mem in enumerate(famr[1:-1], start=1):
+        if any(b == "continues-past-target" for b, _ in fails):
+            break
         if len(mem) == n and _outside(mem, idx, lo, hi):
             fails.append(("continues-past-target", "member %d of %d (parameter %r) lies outside the target [%r, %r] but is not the last member" % (
                 i, len(famr), [mem[j] for j in idx], lo, hi)))
@@ -393,8 +397,10 @@ def analyse(cfg, log, resp, err):
     want = [[mem[j] for j in idx] for mem in famr if len(mem) == n]
     if pv != want:
         fails.append(("parameter-values", "parameter_values %r != parameter components of the family %r" % (pv, want)))
-    fs = np.asarray(info.get("final_step"), dtype=float).ravel().tolist()
-    if len(fs) != m:
+    fs = np.asarray(info.get("final_step"), dtype=float).ravel().tolist() if info.get("final_step") is not None else None
+    if fs is None:
+        pass
+    elif len(fs) != m:
         fails.append(("final-step-shape", "final_step %r for %d continuation parameters" % (fs, m)))
     else:
         for i, v in enumerate(fs):
@@ -445,13 +451,17 @@ def eval_case(cfg, ctx, built=None, key=None, sink=None, done=None):
     consumed = "".join(o for (_, o, _m) in log)
     nt = facts["reject_then_accept"] or facts["crossed_before_max"] or (facts["secant_through_members"] and facts["members"] >= 3)
     sample = None
-    if nt and len(ctx.samples) < 12 and (len(consumed) >= 3):
+    if nt and not ctx.samples and facts["reject_then_accept"] and len(consumed) >= 4:   # one sample per shard
         sample = {"stepper": cfg["stepper"], "idx": cfg["idx"], "step": cfg["step"], "target": cfg["target"],
                   "max_members": cfg["max_members"], "max_retries": cfg["max_retries"], "policy": cfg.get("policy"),
                   "consumed_outcomes": consumed, "stop": facts["stop"], "members": facts["members"],
                   "parameters": [[mem[j] for j in cfg["idx"]] for (_, o, mem) in log if o == "a"],
                   "counters": None if resp is None else {k: resp.info.get(k) for k in ("accepted_count", "rejected_count", "iterations")}}
-    ctx.case(nontrivial=((key or _cfgkey(cfg)), consumed) if nt else None, cls=_classes(cfg, facts, consumed), sample=sample)
+    if nt:
+        ctx.extra["A_nontrivial_cases"] = ctx.extra.get("A_nontrivial_cases", 0) + 1
+    # thorough tier: bound the memory of the distinct-key set (the count above stays exact)
+    record = nt and (ctx.tier == "quick" or len(ctx.nt_keys) < NT_CAP)
+    ctx.case(nontrivial=((key or _cfgkey(cfg)), consumed) if record else None, cls=_classes(cfg, facts, consumed), sample=sample)
     for b, msg in fails:
         payload = dict(cfg)
         payload["script"] = script
@@ -617,6 +627,7 @@ def long_case(draw):
     smax = smin * ratio
     seed = [draw(st.floats(-2.0, 2.0)) for _ in range(6)]
     step, tlo, thi, drift = [], [], [], []
+    wide = draw(st.booleans())
     for i in range(m):
         u = draw(st.one_of(st.sampled_from([0.0, 1.0]), st.floats(0.0, 1.0)))
         mag = min(max(smin * ratio ** u, smin), smax)
@@ -624,8 +635,8 @@ def long_case(draw):
         step.append(sg * mag)
         ka = draw(st.one_of(st.floats(-1.0, 10.0), st.integers(-1, 6).map(float)))
         kb = draw(st.one_of(st.floats(-1.0, 10.0), st.integers(-1, 6).map(float)))
-        if draw(st.integers(0, 3)) == 0:
-            ka, kb = 1e6, 1e6
+        if wide:
+            ka, kb = 1e6 + ka, 1e6 + kb
         p0 = seed[idx[i]]
         tlo.append(p0 - mag * ka)
         thi.append(p0 + mag * kb)
@@ -662,9 +673,14 @@ def e2e_cases(tier):
         dict(base, **halo_s, stepper="secant", state=[2], step=[0.004], target_rel=[[-1.0], [1.0]], max_members=4),
         # natural in z, downwards; the second generated member leaves the target: 3 members expected
         dict(base, **halo_s, stepper="natural", state=[2], step=[-0.003], target_rel=[[-0.005], [1.0]], max_members=5),
+        # step too large for the corrector: failed corrections, halving, then accepts (retry bookkeeping end-to-end)
+        dict(base, **halo_s, stepper="natural", state=[2], step=[0.06], target_rel=[[-1.0], [1.0]], max_members=4, step_max=0.5),
     ]
     if tier != "thorough":
         return out
+    for stepper in ("natural", "secant"):
+        for stp in (0.03, -0.06, 0.12, 0.25):      # 0.12 / 0.25: all retries fail -> give-up with the seed only
+            out.append(dict(base, **halo_s, stepper=stepper, state=[2], step=[stp], target_rel=[[-1.0], [1.0]], max_members=4, step_max=0.5))
     for point in (1, 2):
         for fam, args_list in (("halo", [{"amplitude_z": a, "zenith": z} for a in (0.1, 0.2, 0.3) for z in ("southern", "northern")]),
                                ("lyapunov", [{"amplitude_x": a} for a in (0.02, 0.05)])):
@@ -673,8 +689,6 @@ def e2e_cases(tier):
                     sgn = 1.0 if (ai + si + point) % 2 == 0 else -1.0
                     if fam == "halo":
                         state, mag = [2], (0.002 if ai % 2 else 0.004)
-                        if args["zenith"] == "southern":
-                            pass
                     else:
                         state, mag = [0], 0.001
                     crossing = (ai + point) % 2 == 0
